@@ -268,6 +268,8 @@ C09 = dict(
         "c09_nodes_to_root": _T("nodes_to_root: Ok/Err, no overflow, terminates", "index, nodes, head < 2^40 (head even)", "none"),
         "c09_normalize_indexed": _T("normalize_indexed incl. right_span of a peer-supplied tree index", "index, nodes < 2^40; block or hash", "none"),
         "c09_node_queue_shift": _T("NodeQueue::shift x4 with arbitrary expected indices", "0..2 arbitrary nodes + optional extra; 4 expected indices", "queue <= 3"),
+        "c09_verify_upgrade_no_nodes": _T("verify_upgrade of a node-less upgrade on an empty replica (incl. zero length)", "start, length < 2^40; 64 signature bytes", "no nodes"),
+        "c09_req_block_vs_upgrade_target": _T("create_valueless_proof(block, upgrade) where the block may lie beyond the upgrade target", "block index 0..2, upgrade length 1..3 (start 0)", "3-block literal tree; nodes=0", tier="thorough", timeout=1800),
         "c09_verify_upgrade_empty_replica": _T("verify_upgrade of a structurally arbitrary upgrade on an empty replica", "start,length < 2^40; 0..2 nodes, 0..1 additional node (all fields arbitrary); 64 signature bytes; fork", "empty replica", tier="thorough", timeout=1800),
         "c09_verify_tree_arbitrary": _T("verify_tree of structurally arbitrary block/hash/seek sections", "index < 2^40, value 0..4 bytes, node lists 0..2 arbitrary nodes, seek bytes", "node lists <= 2", tier="thorough", timeout=1800),
         "c09_req_block_n3": _T("create_valueless_proof(block) on a 3-block tree", "block.index, block.nodes < 2^40", "tree of 3 blocks", tier="thorough", timeout=1800),
